@@ -3,6 +3,7 @@ package main
 import (
 	"fmt"
 	"math/bits"
+	"os"
 	"strings"
 )
 
@@ -672,6 +673,9 @@ func SExt(a *Term, w int) *Term {
 	}
 	return mk("sext", w, uint64(w-a.w), "", a)
 }
+
+var plainArith = os.Getenv("GOSYM_PLAIN") != ""
+
 func Extract(a *Term, hi, lo int) *Term {
 	if lo == 0 && hi == a.w-1 {
 		return a
@@ -688,7 +692,7 @@ func Extract(a *Term, hi, lo int) *Term {
 	if a.op == "ite" && leafConst(a, 4) {
 		return Ite(a.args[0], Extract(a.args[1], hi, lo), Extract(a.args[2], hi, lo))
 	}
-	if lo == 0 {
+	if lo == 0 && !plainArith {
 		switch a.op {
 		case "bvand", "bvor", "bvxor", "bvadd", "bvsub", "bvmul":
 			// low bits of these only depend on low bits of the operands
@@ -796,18 +800,10 @@ type Printer struct {
 
 func NewPrinter() *Printer { return &Printer{done: map[int]bool{}, decl: map[string]*Term{}} }
 
+// smtName quotes an input variable name; the prefix keeps harness names (sec, abs, div, ...)
+// from colliding with theory symbols of the solvers.
 func smtName(n string) string {
-	ok := true
-	for _, r := range n {
-		if !(r >= 'a' && r <= 'z' || r >= 'A' && r <= 'Z' || r >= '0' && r <= '9' || r == '_' || r == '.') {
-			ok = false
-			break
-		}
-	}
-	if ok && n != "" && !(n[0] >= '0' && n[0] <= '9') {
-		return n
-	}
-	return "|" + n + "|"
+	return "|v:" + n + "|"
 }
 
 func (p *Printer) ref(t *Term) string {
